@@ -33,7 +33,7 @@ pub struct ModelCheck {
 
 impl ModelCheck {
     pub fn new(property: &'static str, focus: Focus, allowed_dev: Dev) -> Self {
-        ModelCheck { property, focus, queries_per_run: 8, max_rows: 40, allowed_dev, small_batches: false }
+        ModelCheck { property, focus, queries_per_run: 8, max_rows: 40, allowed_dev, small_batches: true }
     }
 
     fn features(&self, rng: &mut Rng) -> Features {
@@ -89,6 +89,7 @@ impl Check for ModelCheck {
         let sim = draw_sim(&mut rng.fork("sim"), true);
         let feats = self.features(&mut rng.fork("swarm"));
         let mut g = Gen::new(rng.fork("queries"), &tables, feats);
+        g.max_product = if knobs.batch_size < 16 { 600 } else if knobs.batch_size < 1024 { 4000 } else { 40_000 };
         let chunk = 1 + rng.fork("chunk").usize_below(9);
         let mut stmts = knobs.set_stmts();
         stmts.extend(setup_sql(&tables, chunk).into_iter().map(Stmt::new));
@@ -101,6 +102,7 @@ impl Check for ModelCheck {
         }
         let mut sc = Scenario::single(stmts);
         sc.sim = sim.clone();
+        sc.entropy = rng.fork("entropy").next_u64();
         let rep = run_scenario(&sc, Chooser::generating(rng.fork("sched")), None);
         stats.world(&rep, knobs.key() ^ crate::rng::hash_str(&sim.policy.name()));
         if run < 2 {
@@ -129,7 +131,7 @@ impl Check for ModelCheck {
                 // re-home the violation into a single-query scenario so that the
                 // replay file and the shrinker work on it alone
                 let aux = SqlAux { tables: tables.clone(), views: vec![], query: q.clone(), knobs: knobs.clone(), chunk, dev: Dev::default() };
-                let (sc1, idx) = scenario_for(&aux, &sim);
+                let (sc1, idx) = scenario_for(&aux, &sim, sc.entropy);
                 let mut v1 = v.clone();
                 v1.scenario = sc1;
                 v1.stmt = idx;
